@@ -6,7 +6,8 @@ OPS = [('next',), ('forward', 0), ('forward', 1), ('forward', 2), ('backward', 1
        ('peek', 1), ('peek', -1), ('peek', 3), ('peekr', 0, 2), ('peekr', -1, 1), ('peekr', 1, 4), ('slice', 0, 2),
        ('slice', 1, 5), ('index', 0), ('index', 3), ('hasNext', 1), ('hasNext', 2), ('startswith', 'a'),
        ('startswith', '\\e'), ('endswith', 'a'), ('endswith', 'ab'), ('forward_until', ('eqsym', 1)),
-       ('forward_until', ('eq', '}')), ('num_forward_until', ('eqsym', 0)), ('num_forward_until', ('starts', 'a'))]
+       ('forward_until', ('eq', '}')), ('num_forward_until', ('eqsym', 0)), ('num_forward_until', ('starts', 'a')),
+       ('forward_until', ('starts', 'a')), ('forward_until', ('len', 5)), ('num_forward_until', ('len', 5))]
 
 
 def plan(tier, seed):
